@@ -782,6 +782,9 @@ class FRAG(Command):
         """
         super(FRAG, self).__init__(shx, spline)
         params, _ = self._parse_line(spline)
+        # FRAG code[17] a[1] b[1] c[1] α[90] β[90] γ[90]
+        defaults = [17, 1.0, 1.0, 1.0, 90.0, 90.0, 90.0]
+        params = params + defaults[len(params):]
         self.code = params[0]
         self.cell = params[1:7]
 
